@@ -156,6 +156,9 @@ inline EdgeList family(const std::string &spec) {
     }
     if (t[0] == "antiprism") { EdgeList g; int k = I(1); g.n = 2 * k; for (int i = 0; i < 2 * k; ++i) for (int d = 1; d <= 2; ++d) { int j = (i + d) % (2 * k); g.e.push_back({std::min(i, j), std::max(i, j)}); } return g; }   // circulant C_2k(1,2)
     if (t[0] == "mobius") { EdgeList g; int k = I(1); g.n = 2 * k; for (int i = 0; i < 2 * k; ++i) { int j = (i + 1) % (2 * k); g.e.push_back({std::min(i, j), std::max(i, j)}); } for (int i = 0; i < k; ++i) g.e.push_back({i, i + k}); return g; }   // Moebius ladder M_2k
+    if (t[0] == "hub") { EdgeList g; int D = I(1), c = I(2); g.n = D + 1; for (int i = 1; i <= D; ++i) g.e.push_back({0, i}); for (int i = 1; i <= c && i + 65536 <= D; ++i) g.e.push_back({i, i + 65536}); return g; }   // star with D leaves + c chords {i, i+65536}
+    if (t[0] == "path") { EdgeList g; g.n = I(1); for (int i = 0; i + 1 < g.n; ++i) g.e.push_back({i, i + 1}); return g; }      // a single path (a forest): long chains of pendant removals
+    if (t[0] == "tadpole") { EdgeList g; int c = I(1), l = I(2); g.n = c + l; for (int i = 0; i < c; ++i) { int j = (i + 1) % c; g.e.push_back({std::min(i, j), std::max(i, j)}); } for (int i = 0; i < l; ++i) g.e.push_back({i ? c + i - 1 : 0, c + i}); return g; }   // cycle of c vertices with a tail of l vertices
     if (t[0] == "grid") return grid(I(1), I(2));
     if (t[0] == "torus") return torus(I(1), I(2));
     if (t[0] == "cube") return hypercube(I(1));
